@@ -162,6 +162,9 @@ type rt struct {
 }
 
 func (w *rt) RoundTrip(req *http.Request) (*http.Response, error) {
+	if req.URL.Scheme == "https" {
+		return nil, errors.New("verif: tls: first record does not look like a TLS handshake")
+	}
 	i := w.n
 	w.n++
 	r := 200
@@ -235,6 +238,9 @@ type scenario struct {
 	off    int // position of a seekable body (file, seeker) when it is handed to Send; the body is stream[off:]
 	rbody  bool
 	flag   string
+	// fallback: the request is made over https with EnableHTTPFallback; every https round trip fails before a byte of the
+	// body is read (as a TLS handshake against a plain-HTTP server does) and the helper's http fallback is the attempt
+	fallback bool
 }
 
 var defaultRetry = map[int]bool{429: true, 502: true, 503: true, 504: true}
@@ -343,6 +349,15 @@ func run(c *eng.Ctx) error {
 		{script: []int{503, 503, 200}, budget: -2, kind: "breader", size: 1},
 		{script: []int{respNet, 503, 503, 200}, budget: -2, kind: "nil"},
 		{script: []int{503, 200}, budget: -1, kind: "sreader", size: 65536},
+		// https with http fallback: the fallback requests are the attempts, each must carry the whole body
+		{script: []int{503, 200}, budget: 2, kind: "breader", size: 65536, fallback: true},
+		{script: []int{respNet, 503, 200}, budget: 3, kind: "sreader", size: 100, fallback: true},
+		{script: []int{503, 503, 200}, budget: 3, kind: "bbuffer", size: 1, fallback: true},
+		{script: []int{503, 200}, budget: 2, kind: "file", size: 65536, off: 4096, fallback: true},
+		{script: []int{200}, budget: 2, kind: "breader", size: 10, fallback: true},
+		{script: []int{503, 200}, budget: 2, kind: "nil", fallback: true},
+		{script: []int{200}, budget: 2, kind: "plain", size: 100, fallback: true},
+		{script: []int{503, 200}, budget: 2, kind: "plain", size: 65536, fallback: true},
 	}
 	for i := range dedicated {
 		d := &dedicated[i]
@@ -432,7 +447,7 @@ func exec(c *eng.Ctx, e *env, t int, s *scenario, rng *rand.Rand) {
 	e.mu.Unlock()
 
 	c.W.Reset(t, map[string]any{"f34": s.flag, "kind": s.kind, "size": s.size, "off": s.off, "script": s.script,
-		"rbody": s.rbody, "retryopt": s.budget})
+		"rbody": s.rbody, "retryopt": s.budget, "fallback": s.fallback})
 
 	var body io.Reader
 	var file *os.File
@@ -499,7 +514,12 @@ func exec(c *eng.Ctx, e *env, t int, s *scenario, rng *rand.Rand) {
 	}
 	c.W.Ev("Send", "m", s.method, "u", s.url, "h", s.hdr, "len", len(payload), "replay", s.kind != "plain",
 		"acc", s.acc, "extra", extra, "budget", s.effBudget())
-	resp, err := httputil.Send(s.method, e.srv.URL+urls[s.url], opts...)
+	base := e.srv.URL
+	if s.fallback {
+		base = "https://" + strings.TrimPrefix(base, "http://")
+		opts = append(opts, httputil.EnableHTTPFallback())
+	}
+	resp, err := httputil.Send(s.method, base+urls[s.url], opts...)
 	res, code := classify(resp, err)
 	if resp != nil {
 		io.Copy(io.Discard, resp.Body)
